@@ -178,6 +178,15 @@ def run_check(prop_id, obls, tier, seed, args, t0):
             for s in range(k):
                 tasks.append((prop_id, o.name, tier, seed, (s, k), s, "enum"))
     results = []
+    try:    # import once in the parent so that forked workers inherit the modules instead of importing them 16 times
+        import hypothesis  # noqa: F401
+        import hypothesis.strategies  # noqa: F401
+        from hypothesis.internal.conjecture import engine as _e  # noqa: F401
+    except Exception:  # noqa: BLE001
+        pass
+    import gc
+    gc.collect()
+    gc.freeze()      # keep the parent's heap out of the children's collections (avoids copy-on-write page faults after fork)
     if args.jobs <= 1:
         results = [runner.worker(t) for t in tasks]
     else:
